@@ -552,6 +552,12 @@ impl CompactEndPositions {
         )
     }
 
+    /// Direct entry to the private sampled select on the interest bits.
+    #[doc(hidden)]
+    pub fn verif_ib_select1_with_state(&self, k: usize) -> Option<(usize, usize, usize)> {
+        self.ib_select1_with_state(k)
+    }
+
     #[doc(hidden)]
     pub fn verif_set_cursor_state(&self, s: (usize, usize, usize, usize, usize, usize)) {
         self.cursor.set(SequentialCursor {
